@@ -1,4 +1,5 @@
 import Cql.Value
+import Cql.Vint
 /-!
 Line protocol for the CQL value codecs (C11–C14, C04 at value level):
 
@@ -18,7 +19,7 @@ list/set `[a,b,c]`; map `{k:v,k:v}` with Go-map semantics (a later duplicate key
 entries sorted by rendered key; tuple `(a,b)`; udt `<a,b>` in declaration order.
 -/
 namespace Driver.Val
-open Cql Cql.Prim Cql.Value
+open Cql Cql.Prim Cql.Value Cql.Vint
 
 /-- later duplicate key wins -/
 def putEntry (k v : String) : List (String × String) → List (String × String)
@@ -78,9 +79,35 @@ def run (version : Nat) (t : DataType) (input : Option Bytes) : String :=
   | .err _ => "err"
   | .panic s => "panic " ++ s
 
+/-- `val vint u <n>`: bytes of `WriteUnsignedVint(n)` and `LengthOfUnsignedVint(n)`; `val vint s <n as uint64>`: the same for the
+zig-zag `WriteVint`/`LengthOfVint` of the int64 with that bit pattern; `val vint r <hex>`: `ReadUnsignedVint` and `ReadVint`
+(value as uint64 bit pattern, bytes consumed). -/
+def vintOp : List String → String
+  | ["u", n] => match n.toNat? with
+    | some v => if v < 18446744073709551616 then toHex (writeUnsignedVint v) ++ " " ++ toString (lengthOfUnsignedVint v) else "bad-op"
+    | none => "bad-op"
+  | ["s", n] => match n.toNat? with
+    | some v => if v < 18446744073709551616 then
+        toHex (writeVint (BitVec.ofNat 64 v)) ++ " " ++ toString (lengthOfVint (BitVec.ofNat 64 v)) else "bad-op"
+    | none => "bad-op"
+  | ["r", h] => match ofHex h with
+    | some bs =>
+      let u := match readUnsignedVint.run bs with
+        | .ok (v, rest) => "ok " ++ toString v ++ " " ++ toString (bs.length - rest.length)
+        | .err _ => "err"
+        | .panic s => "panic " ++ s
+      let z := match readVint.run bs with
+        | .ok (v, rest) => "ok " ++ toString v.toNat ++ " " ++ toString (bs.length - rest.length)
+        | .err _ => "err"
+        | .panic s => "panic " ++ s
+      u ++ " | " ++ z
+    | none => "bad-op"
+  | _ => "bad-op"
+
 def handle (args : List String) : String :=
   let args := match args with | "val" :: rest => rest | _ => args
   match args with
+  | "vint" :: rest => vintOp rest
   | [ver, typehex, valhex] =>
     match ver.toNat?, ofHex typehex, parseValue valhex with
     | some version, some tb, some input =>
